@@ -22,7 +22,7 @@ const MAX: usize = 1 << 24;
 struct B<'a> {
     w: Option<BigW>,
     out: &'a mut dyn Write,
-    pool: Vec<Entity<Big>>, // a sample of issued handles
+    pool: Vec<(Entity<Big>, u8)>, // a sample of issued handles with the value stored for them
 }
 
 impl<'a> B<'a> {
@@ -61,12 +61,12 @@ impl<'a> B<'a> {
             let before = w.big.len();
             if within {
                 match w.create_within_capacity::<Big>((Byte(done as u8),)) {
-                    Ok(e) => { if done % 65521 == 0 { self.pool.push(e); } }
+                    Ok(e) => { if done % 65521 == 0 || (w.big.len() - 1).is_power_of_two() || w.big.len().is_power_of_two() { self.pool.push((e, done as u8)); } }
                     Err(c) => { if c.byte.0 != done as u8 { step_errors += 1; } stop = "err"; break; }
                 }
             } else {
                 match guard(|| w.create::<Big>((Byte(done as u8),))) {
-                    Ok(e) => { if done % 65521 == 0 { self.pool.push(e); } }
+                    Ok(e) => { if done % 65521 == 0 || (w.big.len() - 1).is_power_of_two() || w.big.len().is_power_of_two() { self.pool.push((e, done as u8)); } }
                     Err(()) => { stop = "panic"; break; }
                 }
             }
@@ -98,6 +98,8 @@ impl<'a> B<'a> {
         }
         victims.sort_by_key(|e| e.into_any().raw());
         victims.dedup();
+        // also remove some of the sampled handles, so the sample contains stale ones afterwards
+        for (e, _) in self.pool.iter().skip(3).step_by(7).take(k / 10 + 1) { if !victims.contains(e) { victims.push(*e); } }
         let mut removed = 0usize;
         let mut wrong = 0usize;
         for e in victims.iter() {
@@ -106,11 +108,28 @@ impl<'a> B<'a> {
         }
         self.emit(vec![("op", J::s("destroy_many")), ("k", ji(k)), ("removed", ji(removed)), ("wrong", ji(wrong))]);
     }
+    /// Sampled handles (every 65521st creation and every position next to a power of two, so
+    /// 2^8, 2^16, 2^23, 2^24 - 1 are in): liveness through several lookup paths, the stored value,
+    /// raw round trip, and uniqueness of the sample.
     fn probe(&mut self) {
-        let w = self.w.as_ref().unwrap();
-        let live = self.pool.iter().filter(|e| w.contains(**e)).count();
+        let w = self.w.as_mut().unwrap();
+        let mut live = 0usize;
+        let mut wrong = 0usize;
+        let mut seen = std::collections::HashSet::new();
+        for (e, val) in self.pool.iter() {
+            if !seen.insert(e.into_any().raw()) { wrong += 1; }
+            let c = w.contains(*e);
+            let any = e.into_any();
+            if c != w.contains(any) || c != w.big.contains(*e) || c != w.to_direct(*e).is_some() { wrong += 1; }
+            if EntityAny::from_raw(any.raw()) != Ok(any) { wrong += 1; }
+            if c {
+                live += 1;
+                match w.view(*e) { Some(v) => { if v.byte.0 != *val || *v.entity != *e { wrong += 1; } } None => wrong += 1 }
+                match w.to_direct(*e) { Some(d) => { if ecs_find!(w, d, |b: &Byte| b.0) != Some(*val) { wrong += 1; } } None => wrong += 1 }
+            } else if w.view(*e).is_some() { wrong += 1; }
+        }
         let listed = w.big.entities().len();
-        self.emit(vec![("op", J::s("probe")), ("sampled", ji(self.pool.len())), ("live", ji(live)), ("listed", ji(listed))]);
+        self.emit(vec![("op", J::s("probe")), ("sampled", ji(self.pool.len())), ("live", ji(live)), ("wrong", ji(wrong)), ("listed", ji(listed))]);
     }
 }
 
